@@ -61,25 +61,40 @@ OpWeights(k) == IF StmtKind(k)
                 THEN << <<30, "bind">>, <<36, "use">>, <<10, "del">>, <<9, "global">>, <<11, "nonlocal">> >>
                      \o (IF k = "class" /\ WithLocset THEN << <<25, "locset">> >> ELSE <<>>)
                 ELSE << <<1, "use">> >>
-ModeWeights == << <<46, 1>>, <<24, 2>>, <<2, 3>>, <<28, 4>> >>     \* none, arg, dup, dflt
+ModeWeights == << <<52, 1>>, <<26, 2>>, <<2, 3>>, <<20, 4>> >>     \* none, arg, dup, dflt
 ParOfDie(d) == LET m == WPick(ModeWeights, d) IN
                IF m = 4 THEN [k |-> "dflt", from |-> Pick(NameSeq, d \div 100)] ELSE ParModes[m]
 DiceOpen(g, d) ==
-  LET k == Pick(ChildKinds(CurKind(g)), d[2]) IN
+  LET k == IF StmtKind(CurKind(g)) THEN WPick(<< <<40, "def">>, <<22, "class">>, <<18, "lambda">>, <<20, "comp">> >>, d[2])
+           ELSE Pick(ChildKinds(CurKind(g)), d[2]) IN
   IF k = "class" THEN Open(g, NewScope(g, "class", [n \in Names |-> NoPar], "-", "-"))
   ELSE IF k = "comp" THEN Open(g, NewScope(g, "comp", [n \in Names |-> NoPar], Pick(NameOrNone, d[3]), Pick(NameOrNone, d[4])))
   ELSE Open(g, NewScope(g, k, [n \in Names |-> IF n = NameSeq[1] THEN ParOfDie(d[3]) ELSE ParOfDie(d[4] + 7 * (CHOOSE i \in 1..Len(NameSeq) : NameSeq[i] = n))], "-", "-"))
+\* a declaration that the construction already knows to be illegal (the name occurs earlier in the
+\* block; nonlocal in the module) is kept only one time in eight: rejected programs are wanted,
+\* but not as the majority
+SeenIn(g, n) == \E j \in 1..Len(g.prog[Cur(g)].ev) : EvDefs(g.prog, Cur(g), j, n) # {}
+DiceEv(g, d) ==
+  LET op == WPick(OpWeights(CurKind(g)), d[2])
+      n == Pick(NameSeq, d[3])
+      hopeless == op \in {"global", "nonlocal"} /\ (SeenIn(g, n) \/ (op = "nonlocal" /\ Len(g.stack) = 1) \/ g.prog[Cur(g)].par[n].k # "-")
+  IN AddEv(g, Ev(IF hopeless /\ d[4] % 8 # 0 THEN (IF d[4] % 2 = 0 THEN "use" ELSE "bind") ELSE op, n, 0))
 DiceStep(g, d) ==
-  LET want == WPick(<< <<46, "ev">>, <<12, "call">>, <<24, "open">>, <<18, "close">> >>, d[1])
+  LET want == IF Len(g.stack) = 1
+              THEN WPick(<< <<30, "ev">>, <<18, "call">>, <<52, "open">> >>, d[1])
+              ELSE WPick(<< <<44, "ev">>, <<15, "call">>, <<22, "open">>, <<19, "close">> >>, d[1])
       canEv == Room(g)
       canCall == Room(g) /\ StmtKind(CurKind(g)) /\ Callable(g) # <<>>
       canClose == Len(g.stack) > 1
-      doEv == AddEv(g, Ev(WPick(OpWeights(CurKind(g)), d[2]), Pick(NameSeq, d[3]), 0))
   IN IF want = "call" /\ canCall THEN AddEv(g, Ev("call", "-", Pick(Callable(g), d[2])))
      ELSE IF want = "open" /\ CanOpen(g) THEN DiceOpen(g, d)
      ELSE IF want = "close" /\ canClose THEN Close(g)
-     ELSE IF canEv THEN doEv
+     ELSE IF canEv THEN DiceEv(g, d)
      ELSE IF canClose THEN Close(g)
      ELSE g
-Build(dice) == FoldLeft(LAMBDA g, d : DiceStep(g, d), G0, dice)
+\* the first die decides which names the module binds before anything else
+Preamble(d) == LET m == d[1] % 4 IN
+  FoldLeft(LAMBDA g, j : IF (j = 1 /\ m \in {1, 3}) \/ (j > 1 /\ m \in {2, 3}) THEN AddEv(g, Ev("bind", NameSeq[j], 0)) ELSE g,
+           G0, [j \in 1..Len(NameSeq) |-> j])
+Build(dice) == IF dice = <<>> THEN G0 ELSE FoldLeft(LAMBDA g, d : DiceStep(g, d), Preamble(dice[1]), Tail(dice))
 ====
